@@ -1190,6 +1190,27 @@ static void corpusCases(vh::Rng& rng) {
       mk(T::NT_IMPERATIVE_EXPR, { L("a"), mk(T::ITERATE, { L("a"), s12() }) }),
       mk(T::AND, { mk(T::EQUAL, { L("a"), mkInt(1) }), mk(T::EQUAL, { L("b"), L("b") }) }) }), "corpus.enum-domain-rebinds", false);
   }
+  // stage 9: NESTED tuple patterns (one generated variable '@'+all leaves, leaves = chains of projections); patterns of
+  // different shape over the same leaves share the signature "a,b,c," (one generated name re-used with other paths),
+  // and the flat pattern (ab,c) has the same candidate name @abc
+  {
+    auto s3l = [&] { return mk(T::DECART, { x1x1(), G("X1") }); };   // (X1×X1)×X1
+    auto s3r = [&] { return mk(T::DECART, { G("X1"), x1x1() }); };   // X1×(X1×X1)
+    auto patL = [&] { return mk(T::NT_TUPLE_DECL, { mk(T::NT_TUPLE_DECL, { L("a"), L("b") }), L("c") }); };
+    auto patR = [&] { return mk(T::NT_TUPLE_DECL, { L("a"), mk(T::NT_TUPLE_DECL, { L("b"), L("c") }) }); };
+    runCase(cx, mk(T::FORALL, { patL(), s3l(), mk(T::OR, { mk(T::EQUAL, { L("a"), L("c") }), mk(T::EQUAL, { L("b"), L("c") }) }) }), "corpus.nested-pattern", false);
+    runCase(cx, mk(T::NT_DECLARATIVE_EXPR, { patL(), s3l(), mk(T::EQUAL, { L("a"), L("b") }) }), "corpus.nested-pattern", false);
+    auto qL = mk(T::EXISTS, { patL(), s3l(), mk(T::AND, { mk(T::EQUAL, { L("a"), L("b") }), mk(T::NOTEQUAL, { L("b"), L("c") }) }) });
+    auto qR = mk(T::EXISTS, { patR(), s3r(), mk(T::AND, { mk(T::NOTEQUAL, { L("a"), L("b") }), mk(T::EQUAL, { L("b"), L("c") }) }) });
+    auto qF = mk(T::EXISTS, { mk(T::NT_TUPLE_DECL, { L("ab"), L("c") }), x1x1(), mk(T::NOTEQUAL, { L("ab"), L("c") }) });
+    runCase(cx, mk(T::AND, { qL, mk(T::AND, { qR, qF }) }), "corpus.nested-pattern", false);
+    // a nested pattern inside the scope of another shape over other leaves
+    runCase(cx, mk(T::FORALL, { patL(), s3l(), mk(T::EXISTS, { mk(T::NT_TUPLE_DECL, { L("d"), mk(T::NT_TUPLE_DECL, { L("e"), L("f") }) }), s3r(),
+      mk(T::AND, { mk(T::EQUAL, { L("a"), L("d") }), mk(T::AND, { mk(T::EQUAL, { L("b"), L("e") }), mk(T::EQUAL, { L("c"), L("f") }) }) }) }) }), "corpus.nested-pattern", false);
+    // the same leaves, other shape, in the DOMAIN of the binder: D{(a,(b,c))∈X1×(X1×X1) | a=b} as the set quantified over
+    runCase(cx, mk(T::EXISTS, { mk(T::NT_TUPLE_DECL, { L("a"), mk(T::NT_TUPLE_DECL, { L("b"), L("c") }) }),
+      mk(T::NT_DECLARATIVE_EXPR, { patR(), s3r(), mk(T::EQUAL, { L("a"), L("b") }) }), mk(T::NOTEQUAL, { L("b"), L("c") }) }), "corpus.nested-pattern", false);
+  }
 }
 
 // recorded finding: a function / predicate definition or a structure declaration is accepted by the
